@@ -159,7 +159,9 @@ func c16Combined(c *core.Ctx, b core.Batch, rep int) {
 		scriptedService(s, tbl, func(kind string, r res.Resource) { touch(r.Group(), kind) })
 		s.Handle("item.$id", res.Model, store.Handler{Store: st, Transformer: store.IDTransformer("id", nil)})
 		s.Handle("all", res.Collection, store.QueryHandler{QueryStore: qs, Transformer: trans,
-			RequestHandler: func(string, map[string]string) (url.Values, error) { return idxQuery{Index: "k", Limit: -1}.values(), nil }})
+			RequestHandler: func(string, map[string]string) (url.Values, error) {
+				return idxQuery{Index: "k", Limit: -1}.values(), nil
+			}})
 		s.Handle("search", res.Collection, store.QueryHandler{QueryStore: qs, Transformer: trans,
 			QueryRequestHandler: func(rname string, pp map[string]string, q url.Values) (url.Values, string, error) {
 				v, norm := c14NormQuery(q)
